@@ -61,6 +61,9 @@ theorem setValueStr_id {s : String} (h : quotedLike s = false) : setValueStr s =
 theorem unquoteStr_id {s : String} (h : quotedLike s = false) : unquoteStr s = s := by
   unfold unquoteStr; simp [h]
 
+/-- the user-level default of an entry -/
+def userD (p : Param) : Option Default := match p.default with | some (.val d) => some d | _ => none
+
 /-! ## constants through `to_code` + `ast.parse` + `get_value` -/
 
 /-- numeric `repr`s the re-read model handles -/
